@@ -41,6 +41,14 @@ func (o *OnOff) UnmarshalFlag(v string) error {
 	return nil
 }
 
+// Shout is a string-kinded type whose only method is an Unmarshaler with a pointer receiver (no Marshaler): it stores the upper-cased text.
+type Shout string
+
+func (s *Shout) UnmarshalFlag(v string) error {
+	*s = Shout(strings.ToUpper(v))
+	return nil
+}
+
 // PLevel is an integer-kinded type whose Marshaler and Unmarshaler both have pointer receivers (the usual way to write them).
 type PLevel int
 
@@ -260,6 +268,7 @@ var (
 	TOnOff    = &Type{"OnOff", reflect.TypeOf(OnOff(false))}
 	TCSV      = &Type{"CSV", reflect.TypeOf(CSV{})}
 	TSink     = &Type{"Sink", reflect.TypeOf(Sink{})}
+	TShout    = &Type{"Shout", reflect.TypeOf(Shout(""))}
 	TPLevel   = &Type{"PLevel", reflect.TypeOf(PLevel(0))}
 	TPLevels  = &Type{"[]PLevel", reflect.TypeOf([]PLevel{})}
 	TOnOffs   = &Type{"[]OnOff", reflect.TypeOf([]OnOff{})}
